@@ -41,6 +41,9 @@ pub enum Act {
     /// (statement cache on) a named statement is prepared and used, then one batch closes it and binds it again: an error of
     /// the client's own making, after which it may be disconnected - or stay, but then without a server
     CloseThenBind,
+    /// (plugins on) a statement the pooler answers by itself outside a transaction: true = denied by table_access, false =
+    /// intercepted; simple or extended protocol
+    PluginAnswered(bool, bool),
 }
 
 #[derive(Clone, Debug, Serialize, Deserialize)]
@@ -59,6 +62,9 @@ pub struct Case {
     pub clients: Vec<Vec<Act>>,
     /// kill every established backend session at these times (ms after start)
     pub server_kills: Vec<u16>,
+    /// query parser with the table_access plugin (table `secrets`) and one intercept rule
+    #[serde(default)]
+    pub plugins: bool,
 }
 
 pub struct WirePart;
@@ -77,6 +83,7 @@ fn act_strategy() -> BoxedStrategy<Act> {
         1 => Just(Act::CopyFailThenErr),
         1 => (1u8..30).prop_map(Act::Sleep),
         1 => Just(Act::CloseThenBind),
+        1 => (any::<bool>(), any::<bool>()).prop_map(|(d, e)| Act::PluginAnswered(d, e)),
     ]
     .boxed()
 }
@@ -93,8 +100,9 @@ pub fn case_strategy() -> BoxedStrategy<Case> {
         prop::collection::vec(5u16..120, 0..2),
         any::<u16>(),
         prop_oneof![3 => Just(0u8), 1 => Just(1u8), 1 => Just(2u8), 2 => Just(3u8)],
+        prop::bool::weighted(0.3),
     )
-        .prop_map(|(pool_size, session_mode, workers, cache, connect_timeout, failure_limit, mut clients, server_kills, k, ct_layout)| {
+        .prop_map(|(pool_size, session_mode, workers, cache, connect_timeout, failure_limit, mut clients, server_kills, k, ct_layout, plugins)| {
             // client count between pool_size and 3*pool_size + 1
             let lo = pool_size as usize;
             let hi = 3 * pool_size as usize + 1;
@@ -114,6 +122,7 @@ pub fn case_strategy() -> BoxedStrategy<Case> {
                 failure_limit: if connect_timeout.is_some() { failure_limit } else { None },
                 clients,
                 server_kills,
+                plugins,
             }
         })
         .boxed()
@@ -131,7 +140,7 @@ impl Part for WirePart {
         true
     }
     fn rule(&self) -> String {
-        "pool_size 1..4, clients pool_size..3*pool_size+1, both pool modes; per-client histories of generated transactions mixed with aborts (socket drop between transactions, inside a transaction, before a delayed reply, after part of a message), Terminate, statement errors, server closing mid-reply, lone Sync, failed COPY followed by a failing statement, (statement cache on) a batch that closes a named statement and binds it again, plus 0..2 kills of all backend sessions; a separate class has a 60..200 ms connect_timeout (optionally checkout_failure_limit) so waiters time out; the effective connect_timeout is written at [general], pool or user level, with a decoy value (450 ms resp. 5 s) at the less specific levels that must not take effect. Oracle: live authenticated sessions per mock listener never exceed pool_size for > 300 ms; every request of a live client is answered (or refused with the pool error and the client stays usable); afterwards pool_size probe clients hold pool_size simultaneous transactions and SHOW POOLS/SERVERS report nothing active. Non-trivial = at least one abort/fault while a connection was held AND more clients than pool_size".into()
+        "pool_size 1..4, clients pool_size..3*pool_size+1, both pool modes; per-client histories of generated transactions mixed with aborts (socket drop between transactions, inside a transaction, before a delayed reply, after part of a message), Terminate, statement errors, server closing mid-reply, lone Sync, failed COPY followed by a failing statement, (statement cache on) a batch that closes a named statement and binds it again, (query parser with table_access and intercept plugins, 30% of the cases) statements the pooler answers by itself outside a transaction, plus 0..2 kills of all backend sessions; a separate class has a 60..200 ms connect_timeout (optionally checkout_failure_limit) so waiters time out; the effective connect_timeout is written at [general], pool or user level, with a decoy value (450 ms resp. 5 s) at the less specific levels that must not take effect. Oracle: live authenticated sessions per mock listener never exceed pool_size for > 300 ms; every request of a live client is answered (or refused with the pool error and the client stays usable); afterwards pool_size probe clients hold pool_size simultaneous transactions and SHOW POOLS/SERVERS report nothing active. Non-trivial = at least one abort/fault while a connection was held AND more clients than pool_size".into()
     }
     fn cases(&self, tier: Tier) -> u64 {
         tier.pick(1_200, 18_000)
@@ -176,6 +185,10 @@ fn config(mocks: &[crate::mock::MockServer], c: &Case) -> PgcatConfig {
     }
     if let Some(l) = c.failure_limit {
         pool.set("checkout_failure_limit", &l.to_string());
+    }
+    if c.plugins {
+        pool.set("query_parser_enabled", "true");
+        pool.raw_tail = "[pools.db.plugins]\n\n[pools.db.plugins.table_access]\nenabled = true\ntables = [\"secrets\"]\n\n[pools.db.plugins.intercept]\nenabled = true\n\n[pools.db.plugins.intercept.queries.0]\nquery = \"select current_database() as a, current_schemas(false) as b\"\nschema = [[\"a\", \"text\"], [\"b\", \"text\"]]\nresult = [[\"${DATABASE}\", \"{public}\"]]\n".to_string();
     }
     cfg.pools.push(pool);
     cfg
@@ -317,6 +330,34 @@ async fn run_case(c: &Case, ctx: &mut WorkerCtx) -> Outcome {
                         reqs.push(Req::Simple(vec![s]));
                     }
                     Act::Sleep(ms) => tokio::time::sleep(Duration::from_millis(*ms as u64)).await,
+                    Act::PluginAnswered(denied, ext) => {
+                        // answered by the pooler (permission error / configured rows); without the plugins it is an ordinary
+                        // statement. Either way the client is idle afterwards and must not keep a server.
+                        let t = cli.tag();
+                        let sql = if *denied { format!("{} SELECT * FROM secrets", t.render()) } else { "select current_database() as a, current_schemas(false) as b".to_string() };
+                        let bytes = if *ext {
+                            let mut b = proto::parse("", &sql, &[]);
+                            b.extend_from_slice(&proto::bind("", "", &[], &[], &[]));
+                            b.extend_from_slice(&proto::execute("", 0));
+                            b.extend_from_slice(&proto::sync());
+                            b
+                        } else {
+                            proto::query(&sql)
+                        };
+                        cli.send(&bytes).await;
+                        let (_m, e) = cli.read_until_ready(wire::T_REPLY).await;
+                        match e {
+                            ReadEnd::Ready(_) => {}
+                            ReadEnd::Closed if any_kill => {
+                                r.faulted = true;
+                                break 'acts;
+                            }
+                            other => {
+                                r.stall = Some(format!("a statement the pooler answers by itself ({}) ended {:?}", if *denied { "table_access" } else { "intercept" }, other));
+                                break 'acts;
+                            }
+                        }
+                    }
                     Act::CloseThenBind => {
                         let name = format!("stmt_c{}", id);
                         let t = cli.tag();
@@ -818,7 +859,7 @@ async fn run_reload(c: &ReloadCase, ctx: &mut WorkerCtx) -> Outcome {
         x.close();
     }
     tokio::time::sleep(Duration::from_millis(30)).await;
-    let probe_case = Case { pool_size: c.pool_size, session_mode: false, workers: c.workers, cache: false, connect_timeout: None, ct_layout: 0, failure_limit: None, clients: vec![], server_kills: vec![] };
+    let probe_case = Case { pool_size: c.pool_size, session_mode: false, workers: c.workers, cache: false, connect_timeout: None, ct_layout: 0, failure_limit: None, clients: vec![], server_kills: vec![], plugins: false };
     if let Some(pb) = capacity_probe(&env, &probe_case, t0, 100).await {
         bail!("capacity-lost", pb);
     }
